@@ -363,6 +363,23 @@ def text_listing(files, workdir, tag='listing'):
             viol.append(v)
         if d:
             dis.append(d)
+    # the real command under GitHub Actions variables: a workspace that is the project's parent, one that is only a
+    # STRING prefix of the project path (/w/app vs /w/app-android), an unrelated one -- the file named in each block
+    # is still a scanned file
+    q0 = tq[1][1]
+    for wsname, ws in (('parent directory', os.path.dirname(proj)), ('string prefix of the project path', proj[:-2]), ('unrelated', work + '/elsewhere'), ('project itself', proj)):
+        e_ = dict(ENV, HOME=work, GITHUB_ACTIONS='true', GITHUB_WORKSPACE=ws)
+        rc, o, e = run([B + '/pathfinder', 'query', '--disable-metrics', '--project', proj, '--query', q0], timeout=300, env=e_)
+        stats['listing_workspace_runs'] += 1
+        txt = re.sub(rb'\x1b\[[0-9;]*m', b'', o)
+        j = txt.rfind(b'Executing query: ')
+        body = txt[txt.find(b'\n', j) + 1:] if j >= 0 else txt
+        k0 = body.find(b'\tFile: ')
+        body = body[k0:] if k0 >= 0 else b''
+        v, d = check_report(body.rstrip(b'\n') + b'\n\n' if body else b'', q0, 'GITHUB_ACTIONS=true, GITHUB_WORKSPACE = %s' % wsname)
+        if v:
+            viol.append(v)
+            break
     # the report FILE of the real command, written several times to the same path (longest report first): what the
     # file shows after each run must be that run's report and nothing else
     outf = work + '/report.txt'
